@@ -446,9 +446,15 @@ class Transaction:
             if rdataset.rdclass != self.manager.get_class():
                 raise ValueError(f"{method} has objects of wrong RdataClass")
             if rdataset.rdtype == dns.rdatatype.SOA:
-                _, _, origin = self._origin_information()
+                absolute_origin, _, origin = self._origin_information()
                 if name != origin:
-                    raise ValueError(f"{method} has non-origin SOA")
+                    # The origin may have been given in the other relativity.
+                    if name.is_absolute():
+                        other = absolute_origin
+                    else:
+                        other = dns.name.empty
+                    if absolute_origin is None or name != other:
+                        raise ValueError(f"{method} has non-origin SOA")
             self._raise_if_not_empty(method, args)
             if not replace:
                 existing = self._get_rdataset(name, rdataset.rdtype, rdataset.covers)
